@@ -113,7 +113,7 @@ def main():
             ps = sorted(set([want] + (props if a.props else [])) & set(ALL))
             jobs.append(("seeded", name, os.path.join(d, "patch.diff"), ps, want))
     if "benign" in a.kinds:
-        for pth in sorted(glob.glob(os.path.join(VERIF, "selftest", "benign", "*.patch"))):
+        for pth in sorted(glob.glob(os.path.join(os.environ.get("IVP_BENIGN_DIR") or os.path.join(VERIF, "selftest", "benign"), "*.patch"))):
             name = os.path.basename(pth)[:-6]
             if a.only and not any(o in name for o in a.only.split(",")):
                 continue
